@@ -51,13 +51,13 @@ MUTANTS = [
     ("c02-revert-underflow", "C02", R + "general.py",
      "    peak_turns = changes_direction(diffs[:-1], diffs[1:])\n", "    peak_turns = diffs[:-1] * diffs[1:] < 0.0\n"),
     ("c02-plateau-last-sample", "C02", R + "general.py",
-     "plateau_turns[dups_starts[np.where(diffs[dups_starts] * diffs[dups_ends+1] < 0)]] = True",
-     "plateau_turns[dups_ends[np.where(diffs[dups_starts] * diffs[dups_ends+1] < 0)]] = True"),
+     "plateau_turns[dups_starts[np.where(changes_direction(diffs[dups_starts], diffs[dups_ends+1]))]] = True",
+     "plateau_turns[dups_ends[np.where(changes_direction(diffs[dups_starts], diffs[dups_ends+1]))]] = True"),
     # ---- C03: symmetries
     ("c03-nan-index-gt", "C03", R + "general.py",
      "index[index >= nan_pos] += 1", "index[index > nan_pos] += 1"),
     ("c03-peak-le", "C03", R + "general.py",
-     "peak_turns = diffs[:-1] * diffs[1:] < 0.0", "peak_turns = diffs[:-1] * diffs[1:] <= 0.0"),
+     "    peak_turns = changes_direction(diffs[:-1], diffs[1:])\n", "    peak_turns = changes_direction(diffs[:-1], diffs[1:]) | np.asarray(diffs[:-1] == 0)\n"),
     ("c03-fkm-signed-max", "C03", R + "fkm.py",
      "if np.abs(current) > max_turn:", "if current > max_turn:"),
     # ---- C20: VMAP round trip and roll-back
@@ -68,9 +68,8 @@ MUTANTS = [
     ("c20-connectivity-sorted", "C20", V + "vmap_export.py",
      "c = element_connectivity[1].index.get_level_values('node_id').values",
      "c = np.sort(element_connectivity[1].index.get_level_values('node_id').values)"),
-    ("c20-elnodal-ids-sorted", "C20", V + "vmap_export.py",
-     "element_ids = mesh.index.get_level_values('element_id').drop_duplicates().values",
-     "element_ids = np.sort(mesh.index.get_level_values('element_id').drop_duplicates().values)"),
+    # (c20-elnodal-ids-sorted was removed: since fix 36d3bea ids and values are brought into the same
+    #  element order, so writing the ids sorted is an equivalent change)
     ("c20-import-sorts-nodes", "C20", V + "vmap_import.py",
      "index_np[1, i:i_next] = node_ids", "index_np[1, i:i_next] = np.sort(node_ids)"),
     ("c20-ids-int16", "C20", V + "vmap_export.py",
@@ -95,7 +94,7 @@ MUTANTS = [
     ("c20-revert-interleaved-rows", "C20", V + "vmap_export.py",
      "data=mesh[column_names].iloc[block_order], chunks=True)", "data=mesh[column_names], chunks=True)"),
     ("c20-revert-counter-rollback", "C20", V + "vmap_export.py",
-     "                geometry_group.attrs['MYSIZE'] = variable_count\n", ""),
+     "            geometry_group.attrs['MYSIZE'] = variable_count\n", ""),
     # ---- C04: junction of the HCM passes
     ("c04-second-pass-always-flush", "C04", R + "fkm_nonlinear.py",
      "        return self.process(samples, flush=flush)\n\n    def process(self, samples, flush=False):",
